@@ -32,7 +32,8 @@ class Tokenizer:
     unicodesub = re.compile(
         r'\\\\|\\[0-9a-fA-F]{1,6}(?:\r\n|[\t\r\n\f\x20])?'
     ).sub
-    cleanstring = re.compile(r'\\((\r\n)|[\n\r\f])').sub
+    # escaped line breaks; an escaped backslash is matched first and kept (group 1)
+    cleanstring = re.compile(r'(\\\\)|\\(?:\r\n|[\n\r\f])').sub
 
     def __init__(self, macros=None, productions=None, doComments=True):
         """
@@ -220,10 +221,13 @@ class Tokenizer:
                         ):
                             # may contain unicode escape, replace with normal
                             # char but do not _normalize (?)
-                            value = self.unicodesub(_repl, found)
                             if name in ('STRING', 'INVALID'):  # 'URI'?
-                                # remove \ followed by nl (so escaped) from string
-                                value = self.cleanstring('', value)
+                                # remove \ followed by nl (so escaped) from string,
+                                # before escapes are decoded
+                                value = self.cleanstring(r'\1', found)
+                            else:
+                                value = found
+                            value = self.unicodesub(_repl, value)
 
                         else:
                             if 'ATKEYWORD' == name:
